@@ -14,7 +14,7 @@
       explicit "identity", unary/streaming Connect) and adds decoys (encoding headers and query
       parameters that the protocol in use does not look at).  Observe reads the aspects back.
       Feedback(E, w) is defined on the wire.  The theorems that tie it to layer 1 are checked by
-      TLC in RefChecks.tla (RoundTrip, ExactOnWellFormed, EveryDifferenceFlagged).
+      TLC in RefChecksLaws.tla (RoundTrip, ExactOnWellFormed, EveryDifferenceFlagged).
    3. TIMEOUT.  Grammar of Connect-Timeout-Ms and Grpc-Timeout on character sequences, the exact
       duration on decimal digit sequences (saturating at 2^63-1 ns), and what must be true of the
       header, the context and the echoed timeout_ms afterwards. *)
@@ -127,7 +127,7 @@ ObsComp(w)  == LET h == IF w.method = "GET" THEN w.qcomp
                IN IF h = None THEN "identity" ELSE h
 PeerName(w) == CASE w.peer = "ok" -> ClientCertName [] w.peer = "other" -> OtherCertName [] OTHER -> ""
 
-\* Observe(Render(A, v)) = A for well-formed (A, v): theorem RoundTrip in RefChecks.tla
+\* Observe(Render(A, v)) = A for well-formed (A, v): theorem RoundTrip in RefChecksLaws.tla
 ObserveMatches(w, A) ==
   /\ w.major = A.ver /\ w.method = A.method /\ ObsProto(w) = A.proto
   /\ ObsCodec(w) = CodecName[A.codec] /\ ObsComp(w) = CompName[A.comp]
@@ -208,7 +208,7 @@ TimeoutOutcome(ep, ctm, gtm) ==
 
 (* the acceptance rule the code under test uses (strconv.ParseInt, then limits on the VALUE);
    DeviationShape names the strings on which it differs from the grammar - theorem
-   DeviationCharacterised in RefChecks.tla; the shape is part of every timeout scenario so a
+   DeviationCharacterised in RefChecksLaws.tla; the shape is part of every timeout scenario so a
    reported disagreement can be told apart from a different one. *)
 SignedDigits(s) == Len(s) >= 2 /\ s[1] \in {"+", "-"} /\ IsDigits(Tail(s))
 AsCoded_NumberOK(s, limit) ==
